@@ -8,6 +8,7 @@ fn run_cmd(cmd: &str, args: &Args) -> String {
         "doc" => tree::cmd_doc(args),
         "val" => tree::cmd_val(args),
         "docf" => tree::cmd_docf(args),
+        "depth" => verif_harness::depth::cmd_depth(args),
         "rt" => tree::cmd_rt(args),
         "docv" => tree::cmd_docv(args),
         _ => "unknown-command".to_string(),
@@ -15,5 +16,9 @@ fn run_cmd(cmd: &str, args: &Args) -> String {
 }
 
 fn main() {
+    if std::env::args().nth(1).as_deref() == Some("--depth-child") {
+        verif_harness::depth::child_main();
+        return;
+    }
     verif_harness::main_loop(run_cmd);
 }
